@@ -12,3 +12,88 @@ package token
 //@   property C11 C03
 //@   ensures [equiv] matches(x, regexSimpleFn) <==>
 //@        inLang(x, reAnd(reCat(goTokenL(), reLit("("), reFull("(?s:.)*"), reLit(")")), reNot(reFull("(?s:.)*\n(?s:.)*"))))
+
+// ---- C03: chunks are classified by the first factory that supports them; each class compiles as documented.
+
+//@ interface tokenFactoryStrategy.Supports(expr string) bool pure
+//@ interface tokenFactoryStrategy.Create(expr string) (t Token, err error) pure
+//@ interface factory.Create(expr string) (t Token, err error) pure
+//@ interface chunker.Chunks(s string) (chunks []string, err error) pure
+//@ interface aliaser.Alias(import_ string) string pure
+
+// toExpr strips the surrounding "%" delimiters. "%" is a single byte and a single rune, so on valid UTF-8 the rune
+// view used by the code and the byte view used here agree (A7).
+//@ func toExpr pure
+//@   property C03 C12
+//@   trusted "[]rune conversions are outside the string theory; 12 lines; cross-checked by the bounded conformance test of the thorough tier"
+//@   ensures [delimited_iff] result.1 <==> (len(expr) >= 2 && hasPrefix(expr, "%") && hasSuffix(expr, "%"))
+//@   ensures [inner] result.1 ==> expr == "%" + result.0 + "%"
+//@   ensures [not_ok_empty] !result.1 ==> result.0 == ""
+
+//@ func (FactoryPercentMark).Supports
+//@   property C03
+//@   ensures [iff] result <==> expr == "%%"
+//@ func (FactoryPercentMark).Create
+//@   property C03
+//@   ensures [literal_percent] result.1 == nil && result.0.Kind == KindString && len(result.0.DependsOn) == 0
+
+// %name%: a reference; the dependency list names exactly the parameter the emitted code asks for
+//@ func (FactoryReference).Supports
+//@   property C03 C06
+//@   ensures [iff] result <==> (len(s) >= 2 && hasPrefix(s, "%") && hasSuffix(s, "%") && matches(substr(s, 1, len(s) - 2), regexTokenRef))
+//@ func (FactoryReference).Create
+//@   property C03 C06 C07
+//@   ensures [depends_on_exactly_the_named_param] result.1 == nil && result.0.Kind == KindReference && result.0.Raw == s
+//@        && len(result.0.DependsOn) == 1 && (toExpr(s).1 ==> s == "%" + result.0.DependsOn[0] + "%")
+
+//@ func (FactoryString).Supports
+//@   property C03
+//@   ensures [always] result
+//@ func (FactoryString).Create
+//@   property C03
+//@   ensures [plain_string] result.1 == nil && result.0.Kind == KindString && result.0.Raw == expr && len(result.0.DependsOn) == 0
+
+//@ func (FactoryUnexpectedFunction).Create
+//@   property C03
+//@   ensures [always_rejected] result.1 != nil
+//@ func (FactoryUnexpectedToken).Supports
+//@   property C03
+//@   ensures [iff] result <==> (len(expr) >= 2 && hasPrefix(expr, "%") && hasSuffix(expr, "%"))
+//@ func (FactoryUnexpectedToken).Create
+//@   property C03
+//@   ensures [always_rejected] result.1 != nil
+
+//@ func (*StrategyFactory).Create
+//@   property C03 C12
+//@   requires [wired] forall j int :: 0 <= j && j < len(f.strategies) ==> f.strategies[j] != nil
+//@   ensures [first_supporting_factory_decides] forall k int :: 0 <= k && k < len(f.strategies) && f.strategies[k].Supports(i)
+//@        && (forall q int :: 0 <= q && q < k ==> !f.strategies[q].Supports(i)) ==>
+//@        t == f.strategies[k].Create(i).0 && result.1 == f.strategies[k].Create(i).1
+//@   ensures [unsupported_is_an_error] (forall q int :: 0 <= q && q < len(f.strategies) ==> !f.strategies[q].Supports(i)) ==> result.1 != nil
+//@   loop 1
+//@     invariant [none_so_far] forall q int :: 0 <= q && q < $i ==> !f.strategies[q].Supports(i)
+
+// registered functions are tried before everything registered earlier
+//@ func (*StrategyFactory).Prepend
+//@   property C03
+//@   modifies f.strategies
+//@   ensures [new_first] len(f.strategies) == len(old(f.strategies)) + 1 && f.strategies[0] == s
+//@   ensures [others_in_order] forall j int :: 0 <= j && j < len(old(f.strategies)) ==> f.strategies[j + 1] == old(f.strategies)[j]
+
+// one token per chunk, in order; accepted iff every chunk is
+//@ func (*Tokenizer).Tokenize
+//@   property C03 C12
+//@   requires [wired] t.chunker != nil && t.factory != nil
+//@   ensures [chunker_error_kept] t.chunker.Chunks(s).1 != nil ==> result.1 != nil
+//@   ensures [one_token_per_chunk] t.chunker.Chunks(s).1 == nil ==> len(result.0) == len(t.chunker.Chunks(s).0)
+//@        && (forall k int :: 0 <= k && k < len(result.0) ==> result.0[k] == t.factory.Create(t.chunker.Chunks(s).0[k]).0)
+//@   ensures [accept_sound @a] result.1 == nil ==> t.chunker.Chunks(s).1 == nil && (forall k int :: 0 <= k && k < len(t.chunker.Chunks(s).0) ==> t.factory.Create(t.chunker.Chunks(s).0[k]).1 == nil)
+//@   loop 1
+//@     invariant [len] len(tkns) == len(chunks) && len(errs) == len(chunks)
+//@     invariant [done] forall k int :: 0 <= k && k < $i ==> tkns[k] == t.factory.Create(chunks[k]).0 && errs[k] == t.factory.Create(chunks[k]).1
+
+// single token: the value's type is preserved (provider of that token); several: concatenation of all, in order
+//@ func (Tokens).GoCode
+//@   property C03
+//@   ensures [empty_is_an_error] (result.1 != nil) <==> len(tkns) == 0
+//@   ensures [single_token_keeps_type] len(tkns) == 1 ==> result.0 == "dependencyProvider(" + tkns[0].Code + ")"
